@@ -80,6 +80,29 @@ Bilinear(ca, cb) ==
      IN /\ nops' = MaxOps /\ regs' = <<[grp |-> "bilinear", dlog |-> <<ca, cb>>]>> /\ hist' = h
         /\ Em!Line(OutFile, ToJson([fam |-> "sm9grp", steps |-> h]))
 
+(* inverse cases as one macro step: e(P, -Q) = e(-P, Q) = e(P, Q)^-1 and e(-P, -Q) = e(P, Q), products with the identity of GT *)
+Inverses(ca, cb) ==
+  /\ nops = 0 /\ Mode = "alg" /\ MaxOps >= 3
+  /\ LET a == DL(ca)
+         b == DL(cb)
+         ab == BN!MulMod(a, b, B!N)
+         na == BN!NegMod(a, B!N)
+         nb == BN!NegMod(b, B!N)
+         nab == BN!NegMod(ab, B!N)
+         E(op, g, d, extra) == extra @@ [op |-> op, grp |-> g, cls |-> Cls(d), exp |-> ""]
+         h == << E("base", "g1", a, [k |-> K32(ca), dst |-> 1]), E("base", "g2", b, [k |-> K32(cb), dst |-> 2]),
+                 E("neg", "g2", nb, [src |-> 2, dst |-> 3]), E("neg", "g1", na, [src |-> 1, dst |-> 4]),
+                 E("pair", "gt", ab, [a |-> 1, b |-> 2, dst |-> 5]),
+                 E("pair", "gt", nab, [a |-> 1, b |-> 3, dst |-> 6]),
+                 E("pair", "gt", nab, [a |-> 4, b |-> 2, dst |-> 7]),
+                 E("pair", "gt", ab, [a |-> 4, b |-> 3, dst |-> 8]),
+                 E("add", "gt", <<>>, [a |-> 5, b |-> 6, dst |-> 9]),
+                 E("add", "gt", <<>>, [a |-> 7, b |-> 5, dst |-> 10]),
+                 E("neg", "g2", b, [src |-> 3, dst |-> 11]), E("add", "g2", <<>>, [a |-> 2, b |-> 3, dst |-> 12]),
+                 E("pair", "gt", <<>>, [a |-> 1, b |-> 12, dst |-> 13]) >>
+     IN /\ nops' = MaxOps /\ regs' = <<[grp |-> "inverses", dlog |-> <<ca, cb>>]>> /\ hist' = h
+        /\ Em!Line(OutFile, ToJson([fam |-> "sm9grp", steps |-> h]))
+
 (* ---- anchor: g = e(P1, [ks]P2) of GM/T 0044.5 A.2 ---- *)
 Ks == "000130e78459d78545cb54c587e02cf480ce0b66340f319f348a1d5b1f2dc5f4"
 GStd == "4e378fb5561cd0668f906b731ac58fee25738edf09cadc7a29c0abc0177aea6d" \o "28b3404a61908f5d6198815c99af1990c8af38655930058c28c21bb539ce0000" \o
@@ -174,7 +197,7 @@ Next == \/ \E g \in Groups, c \in ScalarClasses : Base(g, c)
         \/ \E i \in 1..3, c \in MulClasses : MulR(i, c)
         \/ \E i \in 1..3, j \in 1..3 : AddR(i, j) \/ PairR(i, j)
         \/ \E i \in 1..3 : NegR(i) \/ DblR(i)
-        \/ \E ca \in MulClasses, cb \in MulClasses : Bilinear(ca, cb)
+        \/ \E ca \in MulClasses, cb \in MulClasses : Bilinear(ca, cb) \/ Inverses(ca, cb)
         \/ Anchor
         \/ \E j \in DecPoints : (\E v \in {"canon", "xplusp", "yplusp", "xisp", "offcurve", "zeros", "xzero", "short", "trailing", "max"} : DecG1(j, v))
                                 \/ (\E v \in {"canon", "flip", "xplusp", "prefix4", "prefix0", "nonresidue", "short"} : DecG1c(j, v))
